@@ -572,6 +572,12 @@ func (l *Ledger) ConfirmBlock(block *pb.InternalBlock, isRoot bool) ConfirmStatu
 			l.blkHeaderCache = cache.NewLRUCache(BlockCacheSize)
 			l.blockCache = cache.NewLRUCache(BlockCacheSize)
 			block.Transactions = realTransactions
+			// 交易对象上已经被写入了本区块的blockid(矿工传入的是未确认交易表里的对象), 区块没有落盘, 恢复成未确认状态
+			for _, tx := range realTransactions {
+				if bytes.Equal(tx.Blockid, block.Blockid) {
+					tx.Blockid = nil
+				}
+			}
 		}
 	}()
 
